@@ -109,11 +109,15 @@ Definition lzenc_mem_gen (old ck : bool) (d eb ea mlm : Z) (mf : mf_type) : outc
     do x <- add32 ck (b / 1024) 10;
     do m <- mf_mem_gen old ck mf d; add32 ck x m.
 
-(* FastEncoderMode::get_memory_usage / NormalEncoderMode::get_memory_usage *)
+(* FastEncoderMode::get_memory_usage / NormalEncoderMode::get_memory_usage.
+   The caller's extra_size_before (LZMA2: 65536 - dict, saturating) is ADDED to the mode's own
+   (/repo 2f495eb, the F1 repair); [old]: extra_size_before.max(EXTRA_SIZE_BEFORE). *)
 Definition mode_mem_gen (old ck : bool) (mode : enc_mode) (d eb : Z) (mf : mf_type) : outcome Z :=
   match mode with
-  | Fast => lzenc_mem_gen old ck d (Z.max eb 1) (MATCH_LEN_MAX - 1) MATCH_LEN_MAX mf
-  | Normal => do l <- lzenc_mem_gen old ck d (Z.max eb OPTS) OPTS MATCH_LEN_MAX mf;
+  | Fast => do e <- (if old then Ok (Z.max eb 1) else add32 ck eb 1);
+            lzenc_mem_gen old ck d e (MATCH_LEN_MAX - 1) MATCH_LEN_MAX mf
+  | Normal => do e <- (if old then Ok (Z.max eb OPTS) else add32 ck eb OPTS);
+              do l <- lzenc_mem_gen old ck d e OPTS MATCH_LEN_MAX mf;
               add32 ck l (OPTS * 64 / 1024)
   end.
 
@@ -140,10 +144,13 @@ Definition enc_estimate_old := enc_estimate_gen true.
 (* ------------------------------------------------------------------------------------------- *)
 (* Encoder side allocation model (bytes requested from the global allocator)                    *)
 (* ------------------------------------------------------------------------------------------- *)
-(* The only place where the F1 repair (plumbing get_extra_size_before(dict) into LZMAEncoder::new)
-   will show: today the constructor uses the mode's constant alone. *)
-Definition enc_extra_before (mode : enc_mode) (d : Z) : Z :=
-  match mode with Fast => 1 | Normal => OPTS end.
+(* LZMAEncoder::new(.., extra_size_before, ..): the caller's extra (LZMA2Writer passes
+   get_extra_size_before(dict_size), LZMAWriter 0) plus the mode's constant.  (Before the F1 repair,
+   /repo fa095d0 + 2f495eb, the constructor used the mode's constant alone.) *)
+Definition caller_extra_before (k : writer_kind) (d : Z) : Z :=
+  match k with KLzma => 0 | KLzma2 => get_extra_size_before d end.
+Definition enc_extra_before (k : writer_kind) (mode : enc_mode) (d : Z) : Z :=
+  caller_extra_before k d + match mode with Fast => 1 | Normal => OPTS end.
 Definition enc_extra_after (mode : enc_mode) : Z :=
   match mode with Fast => MATCH_LEN_MAX - 1 | Normal => OPTS end.
 
@@ -165,8 +172,8 @@ Definition hash4_size_pure (d : Z) : Z :=
   match get_hash4_size false d with Ok v => v | _ => 0 end.
 
 (* window buffer of LZEncoder::new: vec![0; get_buf_size(..)] *)
-Definition enc_buf_bytes (mode : enc_mode) (d : Z) : Z :=
-  (enc_extra_before mode d + d) + (enc_extra_after mode + MATCH_LEN_MAX) + Z.min (d / 2 + 262144) 536870912.
+Definition enc_buf_bytes (k : writer_kind) (mode : enc_mode) (d : Z) : Z :=
+  (enc_extra_before k mode d + d) + (enc_extra_after mode + MATCH_LEN_MAX) + Z.min (d / 2 + 262144) 536870912.
 
 (* Hash234::new: three AlignedMemoryI32 tables *)
 Definition hash_bytes (d : Z) : Z := ceil64 (4 * HASH2_SIZE) + ceil64 (4 * HASH3_SIZE) + ceil64 (4 * hash4_size_pure d).
@@ -187,7 +194,7 @@ Definition dist_slot_prices_bytes (d : Z) : Z := 4 * VEC_HEADER + 4 * (4 * (get_
 Definition enc_alloc (k : writer_kind) (p : enc_params) : Z :=
   let d := ep_dict p in
   (match k with KLzma => 0 | KLzma2 => COMPRESSED_SIZE_MAX end)       (* RangeEncoderBuffer *)
-  + enc_buf_bytes (ep_mode p) d
+  + enc_buf_bytes k (ep_mode p) d
   + hash_bytes d + mf_bytes (ep_mf p) d
   + opts_bytes (ep_mode p)
   + matches_bytes (ep_nice p)
@@ -198,7 +205,7 @@ Definition enc_alloc (k : writer_kind) (p : enc_params) : Z :=
 (* LZMA2Writer with chunk_size: start_independent_chunk builds the new LZMAEncoder while the old
    one is still owned by the writer, then the new chunk buffer while the old one is alive. *)
 Definition enc_alloc_restart (p : enc_params) : Z :=
-  let e := enc_alloc KLzma p in
+  let e := enc_alloc KLzma2 p - COMPRESSED_SIZE_MAX in
   Z.max (COMPRESSED_SIZE_MAX + 2 * e) (2 * COMPRESSED_SIZE_MAX + e).
 
 (* the documented option range of the encoder *)
